@@ -522,7 +522,15 @@ RECURSIVE DocEvents(_, _)
 DocEvents(d, i) == IF i > Len(d.es) THEN <<>> ELSE (IF IsShape(d.es[i]) THEN ElemEvents(d, i) ELSE <<>>) \o DocEvents(d, i + 1)
 DocSize(d) == LET w == MM(d.unit, d.w) h == MM(d.unit, d.h) IN <<w[1], w[2], h[1], h[2]>>
 AllHaz(d) == UNION {Haz(d.rules, d.es, i, {"fill"} \cup StrokeProps) : i \in {j \in 1..Len(d.es) : IsShape(d.es[j])}}
-DocScenario == LET d == Doc IN [mode |-> "gen", doc |-> d, size |-> DocSize(d), events |-> DocEvents(d, 1), feat |-> DocFeat(d), haz |-> AllHaz(d)]
+\* every shape element with the order-sensitivity features of all its paint properties and, when it has no fill paint, the cells of
+\* its outline (fp): the driver pairs recorded layers with elements by geometry, independently of how they are painted
+NoCands == [col |-> {}]
+ShapeRec(d, i) == LET es == d.es n == NF(es[i]) nofill == Computed(d.rules, es, i, "fill") = "none" IN
+    [el |-> i, haz |-> Haz(d.rules, es, i, {"fill"} \cup StrokeProps) \cup GeoFeat(n),
+     fp |-> IF nofill THEN <<FillEvent(i, n, "black", 0, SMap(d, CTM(es, i)), {}, NoCands)>> ELSE <<>>]
+RECURSIVE DocShapes(_, _)
+DocShapes(d, i) == IF i > Len(d.es) THEN <<>> ELSE (IF IsShape(d.es[i]) THEN <<ShapeRec(d, i)>> ELSE <<>>) \o DocShapes(d, i + 1)
+DocScenario == LET d == Doc IN [mode |-> "gen", doc |-> d, size |-> DocSize(d), events |-> DocEvents(d, 1), shapes |-> DocShapes(d, 1), feat |-> DocFeat(d), haz |-> AllHaz(d)]
 
 \* ------------------------------------------------------------------------------------------------------
 \* 4. round trip: a drawing (canvas of W x H mm, styled draws of lattice polygons under integer views), written by the library's
@@ -563,12 +571,15 @@ RTEvents(D, k) ==
     LET dr == D.draws[k]  n == RTNF(dr)  m == dr.view
         map == [a |-> <<m[1], m[2], S * m[3], -m[4], -m[5], S * (D.h - m[6])>>, dx |-> S * D.w, dy |-> S * D.h]
         st == StrokeStyle(dr.w, dr.join, dr.lim, dr.cap)  f == RTFeat(dr, n) \cup GeoFeat(n)
-    IN (IF dr.fill # "none" THEN <<FillEvent(k, n, dr.fill, dr.rule, map, f, [col |-> {}])>> ELSE <<>>)
-       \o (IF dr.stroke # "none" THEN <<StrokeEvent(k, n, dr.stroke, st, map, f, [col |-> {}])>> ELSE <<>>)
+    IN (IF dr.fill # "none" THEN <<FillEvent(k, n, dr.fill, dr.rule, map, f, NoCands)>> ELSE <<>>)
+       \o (IF dr.stroke # "none" THEN <<StrokeEvent(k, n, dr.stroke, st, map, f, NoCands)>> ELSE <<>>)
 RECURSIVE AllRTEvents(_, _)
 AllRTEvents(D, k) == IF k > Len(D.draws) THEN <<>> ELSE RTEvents(D, k) \o AllRTEvents(D, k + 1)
+RTShape(D, k) == LET dr == D.draws[k] n == RTNF(dr) m == dr.view
+                     map == [a |-> <<m[1], m[2], S * m[3], -m[4], -m[5], S * (D.h - m[6])>>, dx |-> S * D.w, dy |-> S * D.h] IN
+                 [el |-> k, haz |-> RTFeat(dr, n) \cup GeoFeat(n), fp |-> IF dr.fill = "none" \/ dr.rule # 0 THEN <<FillEvent(k, n, "black", 0, map, {}, NoCands)>> ELSE <<>>]
 RTScenario == LET D == Drawing ev == AllRTEvents(D, 1) IN
-              [mode |-> "rt", drawing |-> D, size |-> <<D.w, 1, D.h, 1>>, events |-> ev,
+              [mode |-> "rt", drawing |-> D, size |-> <<D.w, 1, D.h, 1>>, events |-> ev, shapes |-> [k \in 1..Len(D.draws) |-> RTShape(D, k)],
                feat |-> UNION {ev[i].haz : i \in 1..Len(ev)}, haz |-> {}]
 
 \* ------------------------------------------------------------------------------------------------------
